@@ -164,6 +164,9 @@ type CqlClientConnection struct {
 	inFlightHandler    *inFlightRequestsHandler
 	outgoing           chan *frame.Frame
 	events             chan *frame.Frame
+	// channelsLock is held for reading around every (non-blocking) send on outgoing and events, and for writing
+	// while Close closes them: a send on a channel closed in between would panic.
+	channelsLock       sync.RWMutex
 	waitGroup          *sync.WaitGroup
 	closed             int32
 	ctx                context.Context
@@ -433,12 +436,14 @@ func (c *CqlClientConnection) processIncomingFrame(incoming *frame.Frame) (abort
 		for _, handler := range c.handlers {
 			handler(incoming, c)
 		}
+		c.channelsLock.RLock()
 		select {
 		case c.events <- incoming:
 			log.Debug().Msgf("%v: incoming event frame successfully delivered: %v", c, incoming)
 		default:
 			log.Error().Msgf("%v: events queue is full, discarding event frame: %v", c, incoming)
 		}
+		c.channelsLock.RUnlock()
 	} else {
 		if err := c.inFlightHandler.onIncomingFrameReceived(incoming); err != nil {
 			log.Error().Err(err).Msgf("%v: incoming frame delivery failed: %v", c, incoming)
@@ -524,6 +529,8 @@ func (c *CqlClientConnection) Send(f *frame.Frame) (InFlightRequest, error) {
 	if inFlight, err := c.inFlightHandler.onOutgoingFrameEnqueued(f); err != nil {
 		return nil, fmt.Errorf("%v: failed to register in-flight handler for frame: %v: %w", c, f, err)
 	} else {
+		c.channelsLock.RLock()
+		defer c.channelsLock.RUnlock()
 		select {
 		case c.outgoing <- f:
 			log.Debug().Msgf("%v: outgoing frame successfully enqueued: %v", c, f)
@@ -605,12 +612,14 @@ func (c *CqlClientConnection) Close() (err error) {
 		log.Debug().Msgf("%v: closing", c)
 		c.cancel()
 		err = c.conn.Close()
+		c.channelsLock.Lock()
 		outgoing := c.outgoing
 		events := c.events
 		c.outgoing = nil
 		c.events = nil
 		close(outgoing)
 		close(events)
+		c.channelsLock.Unlock()
 		c.inFlightHandler.close()
 		c.waitGroup.Wait()
 		if err != nil {
